@@ -65,12 +65,25 @@ func c20Forbidden() []explore.Event {
 	}
 }
 
+// recovery mailbox under a message limit: rejected messages are kept while there is room, and again once room has
+// been made (the remote refuses every creation in this family).
+func c20Limit() []explore.Event {
+	return []explore.Event{
+		ev("append", 0, "INBOX", "m1"),
+		ev("append", 0, "INBOX", "m2"),
+		ev("cmd", 0, `SELECT "Recovered Messages"`),
+		ev("cmd", 0, `STORE 1 +FLAGS.SILENT (\Deleted)`),
+		ev("cmd", 0, `EXPUNGE`),
+	}
+}
+
 func c20Families(d, faults int) []explore.Family {
 	mk := func(name string, a []explore.Event, depth int) explore.Family {
 		return explore.Family{Name: name, Scenario: "c20", Depth: depth, Params: C20P{mbox.C20Params{Alphabet: a, MaxFaults: faults}}}
 	}
 	// the move-out family is small and its interesting histories are long (reject, move out, reject again): deeper
-	return []explore.Family{mk("append+faults", c20Append(), d), mk("move-out", c20MoveOut(), d+2), mk("forbidden", c20Forbidden(), d)}
+	limit := explore.Family{Name: "recovery-limit", Scenario: "c20", Depth: d + 2, Params: C20P{mbox.C20Params{Alphabet: c20Limit(), MaxFaults: faults, MaxMessages: 1, FailAlways: true}}}
+	return []explore.Family{mk("append+faults", c20Append(), d), mk("move-out", c20MoveOut(), d+2), mk("forbidden", c20Forbidden(), d), limit}
 }
 
 func C20(tier string) int {
